@@ -196,7 +196,7 @@ func (req *Request) Read(b *bufio.Reader) error {
 		if e != nil {
 			return ErrInvalidCmd
 		}
-		if !config.IsValidValueSize(uint32(length)) {
+		if length < 0 || int64(length) > config.MCConf.BodyMax {
 			return ErrValueTooLarge
 		}
 		if length > int(config.MCConf.BodyBig) {
@@ -330,7 +330,7 @@ func (resp *Response) Read(b *bufio.Reader) error {
 			if e2 != nil {
 				return errors.New("invalid response")
 			}
-			if !config.IsValidValueSize(uint32(length)) {
+			if length < 0 || int64(length) > config.MCConf.BodyMax {
 				return ErrValueTooLarge
 			}
 			item := &Item{Flag: flag}
